@@ -20,7 +20,16 @@ RULE = (
     'random direction) tuple; or one call on every broadcast relation scipp allows between the dims of '
     'wavelength (dense / binned) and scattered_beam (equal, transposed, either a strict subset of the other incl. '
     '0-d, overlapping, disjoint) on both code paths and the reflectometry variant; or one tilt sweep of the same '
-    'configuration; distinct = (function, code path, tilt class, |g| class, dtype, layout, units) signatures; '
+    'configuration; or one call made by scipp\'s transform_coords with a kernel as a node of a coordinate graph '
+    '(the kernel alone, or the documented graph beamline(scatter=True)+elastic_Q("tof") with the two_theta node '
+    'replaced; dense data and binned data with an event coordinate; masks per pixel / over both dims / on the events; '
+    'every keep/rename option); every calling convention of the four-parameter signature (keywords in either order, '
+    '1..4 positional); caller dims named like parameters, outputs and internal dim names; a wavelength with variances '
+    '(refused by scipp: counted); second use (same objects again, deep copies after repr/str/==/copy, after a refused '
+    'call); and, on three shards of their own, every size class beyond 2^19 result elements (wavelength[det,tof] / '
+    '[tof,det] / disjoint / per-pixel incident beams beyond 2^22 elements, 2^20+7 pixels, 3 x 400001, binned with '
+    '> 2^22 events, float32) on both code paths; '
+    'distinct = (function, code path, tilt class, |g| class, dtype, layout, units) signatures; '
     'non-trivial unless axis-aligned+scalar. Domain rule for |g|: a gravity vector whose magnitude, as a number '
     'in its own unit, is below 1e-150 has a squared norm that underflows float64 (the same kind of range limit '
     'as the float32 exponent range): such calls are driven in every run (1e-300..1e-155) but only counted, with '
@@ -34,6 +43,13 @@ ASSUMPTIONS = [
     'results, not judged',
     'incident_beam may only carry dims that scattered_beam or wavelength also carry (the result has the union '
     'of the dims of the three operands; binned iff the wavelength is binned, with the bins of the wavelength)',
+    'a wavelength with variances is outside the quantifier: scipp refuses atan2 of such operands (VariancesError; '
+    'DTypeError on the events of binned data); the refusal is counted, a returned result has its values judged',
+    'results beyond 2^19 elements: every element is compared with the construction evaluated in float64 at '
+    '1e-11 rad + 1e4 eps x conditioning (single precision: the ordinary bound), a deterministic selection of ~1e4 '
+    'elements (ends, both sides of every split into 2..16 pieces, random rest) in long double at the ordinary bound',
+    'transform_coords (scipp) is trusted to pass the coordinates it looks up to the node and to store what the '
+    'node returns; renaming of dims by transform_coords is not judged',
 ]
 TOL64 = 1e-12
 TOL32 = 1e-5
@@ -101,6 +117,8 @@ def _np_broadcast(values, dims, to_dims, to_shape):
         raise ValueError(f'operand dims {dims} are not part of the result dims {to_dims}')
     v = np.transpose(values, [dims.index(d) for d in order] + list(range(len(dims), values.ndim)))
     idx = tuple(slice(None) if d in dims else None for d in to_dims) + (slice(None),) * extra
+    if to_shape is None:
+        return v[idx]  # size-1 axes for the dims the operand does not carry
     return np.broadcast_to(v[idx], tuple(to_shape) + values.shape[len(dims):])
 
 
@@ -152,12 +170,136 @@ def layout_problem(args, res):
     return None
 
 
-def _b2_aligned(args, res):
-    """incident_beam, scattered_beam, wavelength[SI] laid out like the result elements."""
-    b2 = elements_like(args['scattered_beam'], res)  # (..., 3)
-    lam = elements_like(args['wavelength'], res).astype(si.LD) * si.factor(ops.elem_unit(args['wavelength']))
-    b1 = elements_like(args['incident_beam'], res)
+def _b2_aligned(args, res, sel=None):
+    """incident_beam, scattered_beam, wavelength[SI] laid out like the result elements (``sel``: only the
+    elements / events with these flat indices)."""
+    def pick(a):
+        if sel is None:
+            return a
+        if ops.is_binned(res):
+            return a[sel]
+        return a[np.unravel_index(sel, res.shape)]
+
+    b2 = pick(elements_like(args['scattered_beam'], res))  # (..., 3)
+    lam = pick(elements_like(args['wavelength'], res)).astype(si.LD) * si.factor(ops.elem_unit(args['wavelength']))
+    b1 = pick(elements_like(args['incident_beam'], res))
     return b1, b2, lam
+
+
+# Results beyond this many elements / events are judged in two stages: every element against the documented
+# construction evaluated in float64 (bound 1e-11 rad + the conditioning of atan2; long double on 4e6 elements
+# would take minutes), and a deterministic selection of elements (both ends, both sides of every place where
+# the result could have been assembled from 2..16 pieces along the flat order and along the leading dim,
+# a few thousand spread over the rest) in long double at the ordinary bound.
+HEAVY_LIMIT = 1 << 19
+SCREEN_TOL64 = 1e-11
+
+
+def n_elements(res):
+    if ops.is_binned(res):
+        b, e = _bin_ranges(res)
+        return int(np.sum(e - b))
+    return int(np.prod(res.shape, dtype=np.int64))
+
+
+def heavy_selection(res):
+    n = n_elements(res)
+    rng = np.random.Generator(np.random.PCG64([n, 404]))
+    pick = [np.arange(0, min(n, 64)), np.arange(max(0, n - 64), n), rng.integers(0, n, size=4096)]
+    for m in range(2, 17):
+        for k in range(1, m):
+            c = (k * n) // m
+            pick.append(np.arange(max(0, c - 2), min(n, c + 3)))
+    if not ops.is_binned(res) and res.ndim > 1 and res.shape[0] > 1:
+        n0 = res.shape[0]
+        row = n // n0
+        rows = {0, n0 - 1}
+        for m in range(2, 17):
+            for k in range(1, m):
+                for c in ((k * n0) // m, -((-k * n0) // m)):  # floor and ceil of the split point
+                    rows.update(r for r in (c - 1, c, c + 1) if 0 <= r < n0)
+        rows = np.array(sorted(rows), dtype=np.int64)
+        cols = np.unique(np.concatenate([[0, row - 1], rng.integers(0, row, size=6)]))
+        pick.append((rows[:, None] * row + cols[None, :]).ravel())
+    return np.unique(np.concatenate(pick).astype(np.int64))
+
+
+def screen64(args, res, g_si, u2):
+    """The documented construction in float64 for every element / event of ``res`` (components in the
+    beam-aligned frame; two_theta = atan2(|b1 x b2'|, b1 . b2')). Per-operand quantities are computed at the
+    size of the operands; only delta and the angles have the size of the result."""
+    c = consts()
+    f = np.float64
+    dims = list(res.dims)
+
+    def ex_(op):
+        return np.asarray(_np_broadcast(op.values, op.dims, dims, None), dtype=f)
+
+    g = np.asarray(g_si, dtype=f)
+    gn = float(np.sqrt(np.sum(g * g)))
+    ey = -g / gn
+    b1, b2 = ex_(args['incident_beam']), ex_(args['scattered_beam'])
+    b1y = np.sum(b1 * ey, axis=-1)
+    zp = b1 - b1y[..., None] * ey
+    b1z = np.sqrt(np.sum(zp * zp, axis=-1))
+    ez = zp / b1z[..., None]
+    exv = np.cross(ey, ez)
+    x, y, z = np.sum(b2 * exv, axis=-1), np.sum(b2 * ey, axis=-1), np.sum(b2 * ez, axis=-1)
+    L2 = np.sqrt(np.sum(b2 * b2, axis=-1))
+    off = np.abs(b1y)
+    off_ang = off / np.sqrt(np.sum(b1 * b1, axis=-1))
+    w = args['wavelength']
+    fw = float(si.factor(ops.elem_unit(w)))
+    if ops.is_binned(res):
+        rb, re_ = _bin_ranges(res)
+        sizes = (re_ - rb).ravel()
+
+        def full(a):
+            return np.repeat(np.broadcast_to(a, res.shape).ravel(), sizes)
+
+        lam = np.asarray(elements_like(w, res), dtype=f) * fw
+    else:
+        def full(a):
+            return a
+
+        lam = np.asarray(_np_broadcast(w.values, w.dims, dims, None), dtype=f) * fw
+    u2 = float(u2)
+    k = gn * float(c['m_n']) ** 2 / (2 * float(c['h']) ** 2) * u2
+    delta = k * lam * lam * full(L2 * L2)
+    yp = full(y) + delta
+    x, z, b1y, b1z = full(x), full(z), full(b1y), full(b1z)
+    cx = b1y * z - b1z * yp
+    cy = b1z * x
+    cz = b1y * x
+    return {
+        'two_theta': np.arctan2(np.sqrt(cx * cx + cy * cy + cz * cz), b1y * yp + b1z * z),
+        'phi': np.arctan2(yp, x), 'gamma': np.arctan2(np.abs(yp), z),
+        'scale_phi': (full(L2) + delta) / np.hypot(x, yp), 'scale_gamma': (full(L2) + delta) / np.hypot(yp, z),
+        'off_len': full(off), 'off_ang': full(off_ang),
+    }
+
+
+def screen_judge(key, got, scr, f32):
+    """(worst fraction of the bound, flat index of it, number of undecided elements) of one output."""
+    got = np.asarray(got, dtype=np.float64)
+    exp = np.broadcast_to(scr[key], got.shape)
+    eps = si.EPS32 if f32 else si.EPS64
+    base = TOL32 if f32 else SCREEN_TOL64
+    with np.errstate(divide='ignore', invalid='ignore'):
+        d = np.abs(got - exp)
+        if key == 'two_theta':
+            tol = base + np.where(scr['off_len'] <= 1.001e-10, 2 * scr['off_ang'], 0.0)
+            tol = np.broadcast_to(tol, got.shape)
+        else:
+            if key == 'phi':
+                d = np.minimum(d, np.abs(2 * np.pi - d))
+            tol = base + (64 if f32 else 1e4) * eps * np.broadcast_to(scr['scale_' + key], got.shape)
+        decided = np.isfinite(tol) & (tol < 1e-3)
+        frac = np.where(decided, d / tol, 0.0)
+        frac = np.where(decided & ~np.isfinite(got), np.inf, frac)
+    i = int(np.argmax(frac))
+    return float(np.ravel(frac)[i]), i, int(got.size - np.count_nonzero(decided)), \
+        float(np.ravel(d)[i]), float(np.ravel(exp)[i])
 
 
 def g_domain(gravity):
@@ -184,6 +326,8 @@ class Monitors:
         self.path = None
         self.meta = {}
         self.intended = None
+        self.same = 'is'       # 'identical': the objects pass through scipp's transform_coords (new wrappers)
+        self.seen = None       # list collecting (name, event) of every observed public call, when set
 
     def mark(self, path):
         def h(ev):
@@ -193,14 +337,69 @@ class Monitors:
     def binding(self, ev, name):
         """The callee must receive each object under the documented parameter name, however it was passed."""
         want, self.intended = self.intended, None
+        if self.seen is not None:
+            self.seen.append((name, ev))
         if want is None:
             return
         self.ctx.event('binding.' + name)
-        wrong = [k for k, v in want.items() if ev.args.get(k) is not v]
+        if self.same == 'is':
+            wrong = [k for k, v in want.items() if ev.args.get(k) is not v]
+        else:
+            wrong = [k for k, v in want.items()
+                     if not (isinstance(ev.args.get(k), sc.Variable) and sc.identical(ev.args[k], v))]
         if wrong:
-            self.ctx.violation('binding', f'{name} called with positional arguments in the documented order '
+            how = self.meta.get('convention', 'positional arguments in the documented order')
+            self.ctx.violation('binding', f'{name} called with {how} '
                                f'(incident_beam, scattered_beam, wavelength, gravity) receives other objects as '
                                f'{wrong}', {'function': name, 'wrong': wrong, **self.meta}, function=name)
+
+    def variances_refused(self, ev, name):
+        """scipp defines no propagation of uncertainties through atan2: a wavelength with variances is refused with
+        scipp's VariancesError (DTypeError for the events of binned data) by the unchanged tree -- a counted refusal. (If a result is returned its values
+        are judged like any other; its variances are not judged.)"""
+        try:
+            w = ev.args['wavelength']
+            data = w.bins.constituents['data'] if ops.is_binned(w) else w
+            has = data.variances is not None
+        except Exception:  # noqa: BLE001
+            return False
+        if not has:
+            return False
+        if isinstance(ev.exc, sc.VariancesError | sc.DTypeError):
+            # (scipp refuses variances on the events of binned data in atan2 with its DTypeError)
+            self.ctx.event('variances.refused: ' + name)
+            self.ctx.count(f'refused: wavelength with variances ({type(ev.exc).__name__})')
+            return True
+        if ev.exc is None:
+            self.ctx.count('wavelength with variances accepted: values judged, variances of the result not judged')
+        return False
+
+    def screen(self, name, args, results, g_si, u2, f32, case, path):
+        """Stage one for results beyond HEAVY_LIMIT: every element against the construction in float64.
+        True if a violation was reported."""
+        ctx = self.ctx
+        cache, bad = {}, False
+        for key, res in results.items():
+            lay = (tuple(res.dims), tuple(res.shape))
+            if lay not in cache:
+                cache[lay] = screen64(args, res, g_si, u2)
+            worst, i, n_und, d, exp = screen_judge(key, ops.result_values(res), cache[lay], f32)
+            ctx.event('screen.' + name)
+            ctx.count('elements judged against the float64 construction (results beyond 2^19 elements)',
+                      n_elements(res) - n_und)
+            if n_und:
+                ctx.count('undecided:ill-conditioned ' + key, n_und)
+            ctx.dev(f'screen {key}.{path or "yz"}.{"f32" if f32 else "f64"} (fraction of the screening bound)', worst)
+            if worst > 1:
+                bad = True
+                case2 = dict(case, output=key, flat_index=i, abserr=d, expected=repr(exp), stage='float64 screen')
+                if key == 'gamma':
+                    ctx.violation('angle_yz', f'{name}: element {i} of {n_elements(res)} off by {d:.3g} rad from '
+                                  'atan2(|y_d + delta|, z_d)', case2)
+                else:
+                    ctx.violation('angle', f'{name}[{key}] via {path} path: element {i} of {n_elements(res)} off by '
+                                  f'{d:.3g} rad', case2, path=path, output=key, matches_lowered_beam=False)
+        return bad
 
     def outside(self, ev, name):
         """Calls with a gravity vector outside the judged domain are counted, never judged."""
@@ -229,12 +428,12 @@ class Monitors:
         ctx = self.ctx
         path, self.path = self.path, None
         self.binding(ev, name)
-        if self.outside(ev, name):
+        if self.outside(ev, name) or self.variances_refused(ev, name):
             return
         case = {'function': name, 'path': path, **self.meta,
                 'args': {k: describe(v) for k, v in ev.args.items()}}
         if ev.exc is not None:
-            ctx.violation('raised', f'{name} raised {type(ev.exc).__name__}: {ev.exc}', case, path=path)
+            ctx.violation('raised', f'{name} raised {type(ev.exc).__name__}: {str(ev.exc)[:300]}', case, path=path)
             return
         try:
             args, g_si, u2, f32 = self._common(ev)
@@ -250,12 +449,18 @@ class Monitors:
         if any(v is not None for v in problems.values()):
             return
         try:
+            heavy = n_elements(tt) > HEAVY_LIMIT
+            if heavy and self.screen(name, args, {'two_theta': tt, 'phi': phi}, g_si, u2, f32, case, path):
+                ctx.event(name)
+                return
             out = {}
             for key, res in (('two_theta', tt), ('phi', phi)):
-                b1, b2, lam = _b2_aligned(args, res)
+                sel = heavy_selection(res) if heavy else None
+                b1, b2, lam = _b2_aligned(args, res, sel)
                 exp = construction(b1, b2, lam, g_si, u2)
                 low = construction(b1, b2, lam, g_si, u2, sign=-1)
-                got = ops.result_values(res).astype(si.LD)
+                got = ops.result_values(res)
+                got = (got if sel is None else np.ravel(got)[sel]).astype(si.LD)
                 eps = si.EPS32 if f32 else si.EPS64
                 base = TOL32 if f32 else TOL64
                 if key == 'phi':
@@ -314,6 +519,8 @@ class Monitors:
         if fam == 'layout' and name != 'beam_aligned_unit_vectors':
             ctx.event('judged.layout: ' + self.meta.get('wavelength_kind', '?') + ' wavelength, '
                       + self.meta.get('relation', '?') + ', ' + name)
+        if fam in ('heavy', 'graph', 'reuse', 'dim names') and name != 'beam_aligned_unit_vectors':
+            ctx.event(f'judged.{fam}: ' + self.meta.get('class', '?') + ', ' + name)
         gn = float(geom.norm(np.asarray(ev.args['gravity'].values)))
         if gn < 1e-12:
             ctx.event('judged.|g| below 1e-12 in its unit: ' + name)
@@ -325,6 +532,8 @@ class Monitors:
         e_x = e_y x e_z (documented); refusal only for beams parallel to gravity."""
         name = 'beam_aligned_unit_vectors'
         ctx = self.ctx
+        if self.seen is not None:
+            self.seen.append((name, ev))
         if self.outside(ev, name):
             return
         case = {'function': name, **self.meta, 'args': {k: describe(v) for k, v in ev.args.items()}}
@@ -332,7 +541,8 @@ class Monitors:
             if self.meta.get('parallel_to_gravity') and isinstance(ev.exc, ValueError):
                 ctx.event('frame.refused')
                 return
-            if self.meta.get('family') in ('direct', 'yz', 'tilt_sweep', 'limits', 'frame', 'layout'):
+            if self.meta.get('family') in ('direct', 'yz', 'tilt_sweep', 'limits', 'frame', 'layout', 'heavy',
+                                           'graph', 'reuse', 'dim names'):
                 ctx.violation('frame_raised', f'{name} raised {type(ev.exc).__name__}: {ev.exc}', case)
             return
         if self.meta.get('parallel_to_gravity'):
@@ -372,14 +582,14 @@ class Monitors:
         ctx = self.ctx
         tilt = self.meta.get('tilt')
         self.binding(ev, name)
-        if self.outside(ev, name):
+        if self.outside(ev, name) or self.variances_refused(ev, name):
             return
         case = {'function': name, **self.meta, 'args': {k: describe(v) for k, v in ev.args.items()}}
         if ev.exc is not None:
             if isinstance(ev.exc, ValueError) and tilt is not None and tilt > 0:
                 ctx.event('yz.refused')
                 return
-            ctx.violation('yz_raised', f'{name} raised {type(ev.exc).__name__} for tilt {tilt}: {ev.exc}',
+            ctx.violation('yz_raised', f'{name} raised {type(ev.exc).__name__} for tilt {tilt}: {str(ev.exc)[:300]}',
                           case, tilt_zero=(tilt == 0))
             return
         if tilt is not None and tilt >= 1e-3:
@@ -401,9 +611,15 @@ class Monitors:
             ctx.violation('layout', f'{name}: {problem}', case, output='gamma')
             return
         try:
-            b1, b2, lam = _b2_aligned(args, res)
+            heavy = n_elements(res) > HEAVY_LIMIT
+            if heavy and self.screen(name, args, {'gamma': res}, g_si, u2, f32, case, None):
+                ctx.event(name)
+                return
+            sel = heavy_selection(res) if heavy else None
+            b1, b2, lam = _b2_aligned(args, res, sel)
             exp = construction(b1, b2, lam, g_si, u2)
-            got = ops.result_values(res).astype(si.LD)
+            got = ops.result_values(res)
+            got = (got if sel is None else np.ravel(got)[sel]).astype(si.LD)
             eps = si.EPS32 if f32 else si.EPS64
             base = TOL32 if f32 else TOL64
             with np.errstate(divide='ignore', invalid='ignore'):
@@ -559,11 +775,33 @@ def tilt_sweep(rng, ctx, K, mon):
 DOCUMENTED_ORDER = ('incident_beam', 'scattered_beam', 'wavelength', 'gravity')
 
 
-def call(fn, args, mon, positional):
-    if positional:
-        mon.intended = dict(args)
-        return fn(*[args[k] for k in DOCUMENTED_ORDER])
-    return fn(**args)
+# every calling convention the signature (four positional-or-keyword parameters) allows
+CONVENTIONS = ('keywords', 'positional', '1 positional + 3 keywords', '2 positional + 2 keywords',
+               '3 positional + 1 keyword', 'keywords in reverse order')
+N_POSITIONAL = {'keywords': 0, 'positional': 4, '1 positional + 3 keywords': 1, '2 positional + 2 keywords': 2,
+                '3 positional + 1 keyword': 3, 'keywords in reverse order': 0}
+
+
+def call(fn, args, mon, convention):
+    """``convention``: a member of CONVENTIONS (True = 'positional', False = 'keywords'). For every convention but
+    plain keywords the monitor checks that each object arrives under its documented name."""
+    if isinstance(convention, bool):
+        convention = 'positional' if convention else 'keywords'
+    mon.ctx.hit('call: ' + convention)
+    if convention == 'keywords':
+        return fn(**args)
+    mon.intended = dict(args)
+    mon.meta = dict(mon.meta, convention=convention)
+    n = N_POSITIONAL[convention]
+    names = DOCUMENTED_ORDER[n:]
+    if convention == 'keywords in reverse order':
+        names = names[::-1]
+    return fn(*[args[k] for k in DOCUMENTED_ORDER[:n]], **{k: args[k] for k in names})
+
+
+def convention_of(i):
+    """Every third call uses one of the non-keyword conventions, in turn."""
+    return CONVENTIONS[1 + (i // 3) % (len(CONVENTIONS) - 1)] if i % 3 == 1 else 'keywords'
 
 
 N_AXIS = len(AXIS_KINDS)
@@ -591,7 +829,7 @@ def run_case(rng, ctx, K, mon, i=0, shard_index=0):
     cfg = make_config(rng, ctx, axis_aligned=axis, tilt=tilt, gmag=gmag)
     gclass = f'{cfg["gmag"]:g}' if band is None else 'band ' + band[0]
     axis = bool(axis)
-    positional = i % 3 == 1
+    positional = convention_of(i)
     layout = LAYOUTS[rng.integers(0, len(LAYOUTS))]
     f32 = rng.random() < 0.3
     npix = 1 if layout == 'scalar' else int(rng.integers(1, 12))
@@ -761,10 +999,16 @@ def layout_classes():
             for rel in LAYOUT_RELATIONS for kind in LAYOUT_KINDS for path in LAYOUT_PATHS]
 
 
-def layout_case(rng, ctx, K, mon, rel, kind, path, variant):
+# dims of the caller named like names that occur inside scipp / the package (binned data keep their events along
+# 'event'; the parameters and outputs of the kernels; common internal dim names)
+DIM_NAME_SETS = [('x', 'y', 'z'), ('event', 'row', 'range'), ('wavelength', 'scattered_beam', 'incident_beam'),
+                 ('two_theta', 'phi', 'gravity'), ('rotation', 'slit', 'vertex')]
+
+
+def layout_case(rng, ctx, K, mon, rel, kind, path, variant, rename=None):
     """One call per (relation of the dims of wavelength and scattered_beam) x (dense / binned wavelength) x
     (code path); the reflectometry variant on the horizontal beams. Every (event, pixel) pair of the result is
-    judged against the construction by the ordinary monitors."""
+    judged against the construction by the ordinary monitors. ``rename``: names for the dims (det, voxel, tof)."""
     name, bdims, wdims = rel
     sizes = {'det': int(rng.integers(2, 5)), 'voxel': int(rng.integers(2, 4)), 'tof': int(rng.integers(2, 4))}
     tilt = 0.0 if path == 'horizontal beam' else [1e-7, 1e-3, 1e-1, 1.0][int(rng.integers(0, 4))]
@@ -825,8 +1069,14 @@ def layout_case(rng, ctx, K, mon, rel, kind, path, variant):
     mon.meta = {'family': 'layout', 'tilt': float(tilt), 'gmag': cfg['gmag'], 'relation': name,
                 'wavelength_kind': kind, 'contiguous_bins': bool(contiguous),
                 'per_element_incident': per is not None}
+    if rename is not None:
+        to = dict(zip(('det', 'voxel', 'tof'), rename, strict=True))
+        args = {k: v.rename_dims({d: to[d] for d in v.dims}) for k, v in args.items()}
+        cls = 'dims named ' + '/'.join(rename)
+        mon.meta = dict(mon.meta, family='dim names', **{'class': f'{cls}, {kind} wavelength, {path}'})
+        ctx.hit('dim names: ' + cls)
     mon.path = None
-    positional = variant % 3 == 1
+    positional = convention_of(variant)
     try:
         call(K.scattering_angles_with_gravity, args, mon, positional)
     except Exception:  # noqa: BLE001 judged through PY_UNWIND
@@ -837,6 +1087,8 @@ def layout_case(rng, ctx, K, mon, rel, kind, path, variant):
         except Exception:  # noqa: BLE001
             pass
     mon.meta = {}
+    if rename is not None:
+        return ('dim names', rename, kind, path, 'f32' if f32 else 'f64')
     ctx.hit(f'layout: {kind} wavelength, {name}, {path}')
     if kind == 'binned':
         ctx.hit('layout: binned wavelength, ' + ('contiguous event buffer' if contiguous else
@@ -844,28 +1096,424 @@ def layout_case(rng, ctx, K, mon, rel, kind, path, variant):
     return ('layout', name, kind, path, 'f32' if f32 else 'f64', per is not None, contiguous)
 
 
+def small_args(rng, ctx, tilt, kind, f32=False, variances=False, npix=None, ntof=None):
+    """wavelength[det, tof] dense or binned over det, scattered_beam[det], one incident beam at the given tilt."""
+    cfg = make_config(rng, ctx, tilt=tilt, gmag=[1.0, 9.80665, 100.0][int(rng.integers(0, 3))])
+    npix = int(rng.integers(2, 7)) if npix is None else npix
+    ntof = int(rng.integers(2, 6)) if ntof is None else ntof
+    dt = 'float32' if f32 else 'float64'
+    det = detectors(rng, npix)
+    if kind == 'dense':
+        v = rng.uniform(0.5, 50.0, size=(npix, ntof)).astype(dt)
+        w = sc.array(dims=['det', 'tof'], values=v, unit='angstrom', dtype=dt,
+                     variances=(v * rng.uniform(0.01, 0.1, size=v.shape)).astype(dt) ** 2 if variances else None)
+    else:
+        sizes = rng.integers(0, 6, size=npix)
+        sizes[int(rng.integers(0, npix))] = int(rng.integers(1, 6))
+        v = rng.uniform(0.5, 50.0, size=int(sizes.sum())).astype(dt)
+        w = ops.make_binned(v, sizes, ['det'], (npix,), 'angstrom', dtype=dt)
+        if variances:
+            c = w.bins.constituents
+            data = sc.array(dims=['event'], values=v, variances=(0.05 * v) ** 2, unit='angstrom', dtype=dt)
+            w = sc.bins(begin=c['begin'], end=c['end'], dim='event', data=data)
+    return cfg, {'incident_beam': sc.vector(cfg['b1'], unit='m'),
+                 'scattered_beam': sc.vectors(dims=['det'], values=det, unit='m'),
+                 'wavelength': w, 'gravity': sc.vector(cfg['ghat'] * cfg['gmag'], unit='m/s^2')}
+
+
+def variances_case(rng, ctx, K, mon, v):
+    """A wavelength that carries variances (dense, and on the events of a binned wavelength), both code paths and
+    the reflectometry variant. The unchanged tree refuses (scipp's VariancesError from atan2): counted. A result,
+    if one is returned, has its values judged by the ordinary monitors."""
+    kind = LAYOUT_KINDS[v % 2]
+    path = LAYOUT_PATHS[v // 2 % 2]
+    tilt = 0.0 if path == 'horizontal beam' else [1e-7, 1e-3, 1e-1][int(rng.integers(0, 3))]
+    cfg, args = small_args(rng, ctx, tilt, kind, f32=bool(v // 4 % 2), variances=True)
+    mon.meta = {'family': 'variances', 'tilt': float(tilt), 'gmag': cfg['gmag'], 'wavelength_kind': kind}
+    mon.path = None
+    for fn in (K.scattering_angles_with_gravity, K.scattering_angle_in_yz_plane):
+        try:
+            call(fn, args, mon, convention_of(v))
+        except Exception:  # noqa: BLE001  judged by the monitors
+            pass
+    mon.meta = {}
+    ctx.hit(f'variances: {kind} wavelength with variances, {path}')
+    return ('variances', kind, path)
+
+
+def _fp_args(args):
+    from rv.snap import fp
+    return {k: fp(v) for k, v in args.items()}
+
+
+def _fp_result(r):
+    from rv.snap import fp
+    return fp({k: r[k] for k in sorted(r)}) if isinstance(r, dict) else fp(r)
+
+
+REUSE_MODES = ('the same objects passed a second time', 'deep copies of the objects after repr / str / == / copy',
+               'the same objects after a refused call')
+
+
+def reuse_case(rng, ctx, K, mon, v):
+    """Second use. The kernels are functions of their arguments: (i) the same four objects passed again, (ii) their
+    deep copies -- after repr(), str(), ==, copy.copy() of arguments and result -- (iii) the same objects after a
+    call that was refused (reflectometry variant with a tilted beam / frame with a beam parallel to gravity, then
+    the valid beam) give the bit-identical result, every call judged by the ordinary monitors; no call may change
+    an argument (the monitors read the arguments when the call returns)."""
+    import copy
+
+    mode = REUSE_MODES[v % 3]
+    kind = LAYOUT_KINDS[v // 3 % 2]
+    path = LAYOUT_PATHS[v // 6 % 2]
+    tilt = 0.0 if path == 'horizontal beam' else [1e-7, 1e-3, 1e-1][int(rng.integers(0, 3))]
+    cfg, args = small_args(rng, ctx, tilt, kind, f32=bool(v // 12 % 2))
+    cls = f'{mode}, {kind} wavelength, {path}'
+    fns = [('scattering_angles_with_gravity', K.scattering_angles_with_gravity)]
+    if tilt == 0:
+        fns.append(('scattering_angle_in_yz_plane', K.scattering_angle_in_yz_plane))
+    for fname, fn in fns:
+        mon.meta = {'family': 'reuse', 'tilt': float(tilt), 'gmag': cfg['gmag'], 'class': cls}
+        mon.path = None
+        case = {'function': fname, **mon.meta, 'args': {k: describe(a) for k, a in args.items()}}
+        before = _fp_args(args)
+        try:
+            first = fn(**args)
+            ref = _fp_result(first)
+        except Exception:  # noqa: BLE001  the monitor has reported it
+            continue
+        second_args = args
+        if mode == REUSE_MODES[1]:
+            for o in (*args.values(), *(first.values() if isinstance(first, dict) else [first])):
+                for look in (repr, str, copy.copy, lambda o: o == o, lambda o: f'{o}', sc.Variable._repr_html_):
+                    try:
+                        look(o)
+                    except Exception:  # noqa: BLE001  (scipp's own display / comparison: not judged)
+                        pass
+            second_args = copy.deepcopy(args)
+        elif mode == REUSE_MODES[2]:
+            up = -np.asarray(cfg['ghat'], dtype=np.float64)
+            bad = dict(args, incident_beam=sc.vector(np.asarray(cfg['b1']) + 0.3 * cfg['L1'] * up, unit='m'))
+            par = dict(args, incident_beam=sc.vector(cfg['L1'] * up, unit='m'))
+            keep, keep_path = mon.meta, mon.path
+            # (a beam parallel to gravity is outside the quantifier of the two kernels: only the frame gets it)
+            for f2, a2, m2 in ((K.scattering_angle_in_yz_plane, bad, {'tilt': 0.29}),
+                               (K.beam_aligned_unit_vectors,
+                                {k: par[k] for k in ('incident_beam', 'gravity')}, {'parallel_to_gravity': True})):
+                mon.meta = dict(keep, **m2)
+                try:
+                    f2(**a2)
+                except Exception:  # noqa: BLE001  judged by the monitors (refusals expected)
+                    pass
+            mon.meta, mon.path = keep, keep_path
+        mon.path = None
+        try:
+            second = call(fn, second_args, mon, convention_of(3 * v + 1))
+            again = _fp_result(second)
+        except Exception:  # noqa: BLE001
+            continue
+        ctx.event('reuse.' + fname)
+        if again != ref:
+            ctx.violation('second_use', f'{fname}: {mode}: the second result differs from the first', case,
+                          function=fname, mode=mode)
+        changed = [k for k, h in _fp_args(args).items() if h != before[k]]
+        if changed:
+            ctx.violation('input_modified', f'{fname} changed its argument(s) {changed}', case, function=fname)
+    mon.meta = {}
+    ctx.hit('reuse: ' + cls)
+    return ('reuse', mode, kind, path)
+
+
+# --------------------------------------------------- kernels as graph nodes ---
+GRAPH_FORMS = ('kernel as the only node', 'documented graph: beamline(scatter=True) + elastic_Q("tof") with the '
+               'two_theta node replaced')
+GRAPH_FUNCS = ('scattering_angles_with_gravity', 'scattering_angle_in_yz_plane')
+GRAPH_MASKS = ('no masks', 'per-pixel mask', 'mask over both dims / on the bins', 'mask on the events')
+
+
+def graph_classes():
+    return [f'{form}, {fn}, {kind} data, {path}' for form in GRAPH_FORMS for fn in GRAPH_FUNCS
+            for kind in ('dense', 'binned') for path in LAYOUT_PATHS]
+
+
+def _same_coord(have, ref):
+    """Same unit, dtype, shape, values (bins), in the same order of dims -- transform_coords may have renamed
+    the dims (its documented handling of dimension-coordinates)."""
+    if have.ndim != ref.ndim or have.shape != ref.shape:
+        return False
+    if have.dims != ref.dims:
+        tmp = {d: f'_rv_{i}' for i, d in enumerate(have.dims)}
+        have = have.rename_dims(tmp).rename_dims({tmp[d]: r for d, r in zip(have.dims, ref.dims, strict=True)})
+    return sc.identical(have, ref, equal_nan=True)
+
+
+def graph_case(rng, ctx, K, mon, form, fname, kind, path, v):
+    """The kernels used as nodes of a coordinate-transformation graph (user guide, 'Gravity correction'):
+    ``da.transform_coords(...)`` looks every parameter of a node up as a coordinate of ``da`` (an event coordinate for
+    binned data). The kernel call made by scipp is judged by the ordinary monitors; here: transform_coords
+    must call the kernel and must not fail for a reason other than the kernel's own documented refusal; the
+    requested coordinates of the output are the values the kernel returned; masks of the input are kept."""
+    from scippneutron.conversion import graph as G
+
+    tilt = 0.0 if path == 'horizontal beam' else [1e-3, 1e-2, 1e-1, 1.0][int(rng.integers(0, 4))]
+    cfg = make_config(rng, ctx, tilt=tilt, gmag=[1.0, 9.80665, 100.0][int(rng.integers(0, 3))])
+    npix, ntof = int(rng.integers(2, 7)), int(rng.integers(2, 6))
+    det = detectors(rng, npix)
+    g = sc.vector(cfg['ghat'] * cfg['gmag'], unit='m/s^2')
+    masks = GRAPH_MASKS[v % len(GRAPH_MASKS)]
+    if masks == 'mask on the events' and kind == 'dense':
+        masks = 'per-pixel mask'
+    documented = form != GRAPH_FORMS[0]
+    coords = {'gravity': g}
+    if documented:
+        sample = rng.normal(size=3)
+        coords.update(source_position=sc.vector(sample - cfg['b1'], unit='m'),
+                      sample_position=sc.vector(sample, unit='m'),
+                      position=sc.vectors(dims=['det'], values=sample[None, :] + det, unit='m'))
+        wname, wunit = 'tof', 'us'
+        ltot = float(np.linalg.norm(cfg['b1'])) + np.linalg.norm(det, axis=1)  # per pixel, m
+
+        def wvals(n, pix):  # time of flight [us] of wavelengths 0.5..50 angstrom over the straight flight path
+            return rng.uniform(0.5, 50.0, size=n) * ltot[pix] * (1e6 / 3956.034)
+    else:
+        coords.update(incident_beam=sc.vector(cfg['b1'], unit='m'),
+                      scattered_beam=sc.vectors(dims=['det'], values=det, unit='m'))
+        wname, wunit = 'wavelength', 'angstrom'
+
+        def wvals(n, pix):
+            return rng.uniform(0.5, 50.0, size=n)
+    pixmask = sc.array(dims=['det'], values=rng.random(npix) < 0.4)
+    if kind == 'dense':
+        coords[wname] = sc.array(dims=['det', 'tof'], values=wvals(npix * ntof, np.repeat(np.arange(npix), ntof)).reshape(npix, ntof),
+                                 unit=wunit)
+        da = sc.DataArray(sc.array(dims=['det', 'tof'], values=rng.uniform(0, 9, size=(npix, ntof)), unit='counts'),
+                          coords=coords)
+        if masks == 'per-pixel mask':
+            da.masks['pix'] = pixmask
+        elif masks != 'no masks':
+            da.masks['both'] = sc.array(dims=['det', 'tof'], values=rng.random((npix, ntof)) < 0.4)
+    else:
+        sizes = rng.integers(0, 6, size=npix)
+        sizes[int(rng.integers(0, npix))] = int(rng.integers(1, 6))
+        n = int(sizes.sum())
+        ev = sc.DataArray(sc.array(dims=['event'], values=rng.uniform(0, 2, size=n), unit='counts'),
+                          coords={wname: sc.array(dims=['event'], values=wvals(n, np.repeat(np.arange(npix), sizes)), unit=wunit)})
+        if masks == 'mask on the events':
+            ev.masks['evmask'] = sc.array(dims=['event'], values=rng.random(n) < 0.4)
+        end = np.cumsum(sizes)
+        da = sc.DataArray(sc.bins(begin=sc.array(dims=['det'], values=end - sizes, unit=None, dtype='int64'),
+                                  end=sc.array(dims=['det'], values=end, unit=None, dtype='int64'),
+                                  dim='event', data=ev), coords=coords)
+        if masks not in ('no masks', 'mask on the events'):
+            da.masks['pix'] = pixmask
+    fn = getattr(K, fname)
+    if fname == GRAPH_FUNCS[0]:
+        outs, key = ['two_theta', 'phi'], ('two_theta', 'phi')
+    else:
+        outs, key = ['theta'], 'theta'
+    if documented:
+        graph = {**G.beamline.beamline(scatter=True), **G.tof.elastic_Q('tof')}
+        del graph['two_theta']
+        graph[key] = fn
+    else:
+        graph = {key: fn}
+    options = [{}, {'rename_dims': False}, {'keep_inputs': False}, {'keep_intermediate': False, 'keep_aliases': False}]
+    opt = options[(v // len(GRAPH_MASKS)) % len(options)]
+    cls = f'{form}, {fname}, {kind} data, {path}'
+    mon.meta = {'family': 'graph', 'tilt': float(tilt), 'gmag': cfg['gmag'], 'class': cls, 'masks': masks,
+                'options': str(opt)}
+    mon.path = None
+    case = {**mon.meta, 'input': describe(da)}
+    keep_masks = {k: m.copy() for k, m in da.masks.items()}
+    keep_evmasks = {k: m.copy() for k, m in da.bins.masks.items()} if kind == 'binned' else {}
+    if not documented:
+        mon.intended = {k: (da.coords[k] if k in da.coords else da.bins.coords[k]).copy() for k in DOCUMENTED_ORDER}
+        mon.same = 'identical'
+        mon.meta = dict(mon.meta, convention='the coordinates of the data looked up by transform_coords')
+    mon.seen = []
+    out = exc = None
+    try:
+        out = da.transform_coords(outs, graph=graph, **opt)
+    except Exception as e:  # noqa: BLE001
+        exc = e
+    seen, mon.seen, mon.same, mon.intended = [(n, ev) for n, ev in mon.seen if n == fname], None, 'is', None
+    mon.meta = {}
+    ctx.event('graph.' + fname)
+    ctx.hit('graph: ' + cls)
+    ctx.hit('graph: ' + masks)
+    sig = ('graph', form, fname, kind, path, masks, str(opt))
+    called = len(seen) > 0
+    refusal = fname == GRAPH_FUNCS[1] and tilt > 0
+    if exc is not None:
+        own = called and seen[-1][1].exc is exc
+        if own and refusal and isinstance(exc, ValueError):
+            ctx.event('graph.refusal of the kernel passed on')
+            return sig
+        if not own:  # (an exception of the kernel itself has been judged by its monitor)
+            ctx.violation('graph_raised', f'transform_coords with {fname} as a graph node fails with '
+                          f'{type(exc).__name__}: {str(exc)[:300]}' + ('' if called else ' (the kernel was never called)'),
+                          case, function=fname, kernel_called=called, exc=type(exc).__name__)
+        return sig
+    if not called:
+        ctx.violation('graph_output', f'transform_coords returned without calling {fname}', case, function=fname,
+                      problem='kernel not called')
+        return sig
+    if refusal:
+        return sig  # the monitor has reported yz_not_refused
+    res = seen[-1][1].result
+    res = res if isinstance(res, dict) else {'theta': res}
+    for k in outs:
+        have = out.coords[k] if k in out.coords else (out.bins.coords[k] if kind == 'binned' and k in out.bins.coords
+                                                      else None)
+        if have is None or not isinstance(res.get(k), sc.Variable):
+            ctx.violation('graph_output', f'coordinate {k!r} is missing from the output of transform_coords', case,
+                          function=fname, problem='missing coordinate')
+        elif not _same_coord(have, res[k]):
+            ctx.violation('graph_output', f'coordinate {k!r} of the output of transform_coords is not what {fname} '
+                          'returned', case, function=fname, problem='different coordinate')
+    lost = [k for k, m in keep_masks.items() if k not in out.masks or not _same_coord(out.masks[k], m)]
+    if kind == 'binned':
+        lost += [k for k, m in keep_evmasks.items()
+                 if k not in out.bins.masks or not sc.identical(out.bins.masks[k], m)]
+    if lost:
+        ctx.violation('graph_output', f'masks {lost} of the input are lost or changed', case, function=fname,
+                      problem='masks')
+    return sig
+
+
+# ----------------------------------------------------------- heavy sizes ---
+# name, scattered_beam dims, wavelength dims, sizes, wavelength kind, incident beam per element of
+HEAVY_CASES = [
+    ('wavelength[det, tof] 2100 x 2048 (> 2^22), scattered_beam[det]: leading dim shared',
+     ['det'], ['det', 'tof'], {'det': 2100, 'tof': 2048}, 'dense', None),
+    ('wavelength[tof, det] 2048 x 2100 (> 2^22), scattered_beam[det]: leading dim not shared',
+     ['det'], ['tof', 'det'], {'det': 2100, 'tof': 2048}, 'dense', None),
+    ('wavelength[wavelength] 2048 x scattered_beam[det] 2100 (> 2^22): disjoint dims',
+     ['det'], ['wavelength'], {'det': 2100, 'wavelength': 2048}, 'dense', None),
+    ('wavelength[det, tof] 2100 x 2048, scattered_beam[det], incident_beam[det]: leading dim shared with both beams',
+     ['det'], ['det', 'tof'], {'det': 2100, 'tof': 2048}, 'dense', 'det'),
+    ('wavelength[det] and scattered_beam[det], 2^20 + 7 pixels', ['det'], ['det'], {'det': (1 << 20) + 7}, 'dense', None),
+    ('wavelength[tof, det] 3 x 400001, scattered_beam[det]', ['det'], ['tof', 'det'], {'det': 400001, 'tof': 3},
+     'dense', None),
+    ('wavelength[det, tof] 400001 x 3, scattered_beam[det]', ['det'], ['det', 'tof'], {'det': 400001, 'tof': 3},
+     'dense', None),
+    ('binned wavelength[det] 2100 pixels with > 2^22 events, scattered_beam[det]',
+     ['det'], ['det'], {'det': 2100}, 'binned', None),
+    ('float32 wavelength[det, tof] 2100 x 2048, scattered_beam[det]',
+     ['det'], ['det', 'tof'], {'det': 2100, 'tof': 2048}, 'dense f32', None),
+]
+# thorough only: sizes at and next to powers of two, several times 2^22, a leading dim that no number of pieces divides
+HEAVY_CASES_THOROUGH = [
+    (f'wavelength[det, tof] {a} x {b}, scattered_beam[det]', ['det'], ['det', 'tof'], {'det': a, 'tof': b}, 'dense', None)
+    for a, b in ((1024, 1024), (1025, 1024), (2048, 2048), (2049, 2048), (2047, 2049), (4099, 2048), (8192, 1024),
+                 (6151, 2048), (3, 1 << 21), (2, (1 << 22) + 1))
+] + [
+    (f'wavelength[tof, det] {b} x {a}, scattered_beam[det], incident_beam[det]', ['det'], ['tof', 'det'],
+     {'det': a, 'tof': b}, 'dense', 'det') for a, b in ((2100, 2048), (4099, 1031))
+] + [
+    ('binned wavelength[det, tof] 300 x 7 bins with > 2^22 events, scattered_beam[det]',
+     ['det'], ['det', 'tof'], {'det': 300, 'tof': 7}, 'binned', None),
+]
+HEAVY_SHARDS = 3
+
+
+def heavy_case(rng, ctx, K, mon, hc, path):
+    name, bdims, wdims, sizes, kind, per = hc
+    tilt = 0.0 if path == 'horizontal beam' else [1e-7, 1e-3, 1e-2, 1e-1][int(rng.integers(0, 4))]
+    cfg = make_config(rng, ctx, tilt=tilt, gmag=[1.0, 9.80665, 100.0][int(rng.integers(0, 3))])
+    dt = 'float32' if kind.endswith('f32') else 'float64'
+    kind = kind.split()[0]
+    bshape = [sizes[d] for d in bdims]
+    nb = int(np.prod(bshape, dtype=int))
+    det = geom.random_unit(rng, nb) * rng.uniform(0.5, 30.0, size=(nb, 1))
+    b2 = sc.vectors(dims=bdims, values=det.reshape([*bshape, 3]), unit='m')
+    wshape = tuple(sizes[d] for d in wdims)
+    if kind == 'dense':
+        w = sc.array(dims=wdims, values=rng.uniform(1e-3, 100.0, size=wshape).astype(dt), unit='angstrom', dtype=dt)
+    else:
+        nbin = int(np.prod(wshape, dtype=int))
+        mean = ((1 << 22) + (1 << 17)) // nbin
+        bs = rng.integers(mean - mean // 10, mean + mean // 10, size=nbin)
+        bs[rng.integers(0, nbin, size=3)] = 0
+        bs[-1] += max(0, (1 << 22) + 1 - int(bs.sum()))
+        w = ops.make_binned(rng.uniform(0.0, 100.0, size=int(bs.sum())), bs, wdims, wshape, 'angstrom')
+    if per is None:
+        b1 = sc.vector(cfg['b1'], unit='m')
+    else:
+        n1 = sizes[per]
+        tl = np.where(rng.random(n1) < 0.5, 0.0, tilt).astype(si.LD)
+        L1 = rng.uniform(1.0, 50.0, size=n1).astype(si.LD)
+        b1s = L1[:, None] * (np.cos(tl)[:, None] * geom.v3(cfg['h'])[None, :]
+                             + np.sin(tl)[:, None] * (-geom.v3(cfg['ghat']))[None, :])
+        b1 = sc.vectors(dims=[per], values=b1s.astype(np.float64), unit='m')
+    args = {'incident_beam': b1, 'scattered_beam': b2, 'wavelength': w,
+            'gravity': sc.vector(cfg['ghat'] * cfg['gmag'], unit='m/s^2')}
+    cls = f'{name}, {path}'
+    mon.meta = {'family': 'heavy', 'tilt': float(tilt), 'gmag': cfg['gmag'], 'class': cls}
+    mon.path = None
+    try:
+        call(K.scattering_angles_with_gravity, args, mon, 'keywords')
+    except Exception:  # noqa: BLE001 judged through PY_UNWIND
+        pass
+    if tilt == 0:
+        try:
+            call(K.scattering_angle_in_yz_plane, args, mon, 'keywords')
+        except Exception:  # noqa: BLE001
+            pass
+    mon.meta = {}
+    ctx.hit('heavy: ' + cls)
+    return ('heavy', name, path)
+
+
 # ---------------------------------------------------------------- driver ---
+N_ORDINARY = 13  # + HEAVY_SHARDS heavy shards = 16 planned shards (the runner adds two environment variants of shard 0)
+
+
+def heavy_pairs(tier, seed, slot):
+    """(heavy case, path) pairs of one heavy shard: every heavy case on both code paths in every run (thorough: also
+    the sizes next to powers of two), dealt out over the heavy shards."""
+    cases = HEAVY_CASES if tier == 'quick' else HEAVY_CASES + HEAVY_CASES_THOROUGH
+    pairs = [(hc, p) for hc in cases for p in LAYOUT_PATHS[::-1]]
+    return pairs[slot::HEAVY_SHARDS]
+
+
 def plan(tier, seed):
-    n = 16
-    return [{'cases': 300 if tier == 'quick' else 20000, 'sweeps': 15 if tier == 'quick' else 800,
-             'layout_reps': 1 if tier == 'quick' else 40}
-            for _ in range(n)]
+    quick = tier == 'quick'
+    ordinary = [{'kind': 'ordinary', 'cases': 360 if quick else 24000, 'sweeps': 18 if quick else 960,
+                 'layout_reps': 1 if quick else 48} for _ in range(N_ORDINARY)]
+    return ordinary + [{'kind': 'heavy', 'slot': k} for k in range(HEAVY_SHARDS)]
 
 
 def requirements(tier):
     gclasses = [f'{g:g}' for g in GMAGS] + ['band ' + b[0] for b in GBANDS]
     fns = ('scattering_angles_with_gravity', 'scattering_angle_in_yz_plane', 'beam_aligned_unit_vectors')
+    n = N_ORDINARY
     events = {'scattering_angles_with_gravity': 200, 'path.generic': 50, 'path.orthogonal': 30,
               'scattering_angle_in_yz_plane': 10, 'yz.refused': 10,
               'beam_aligned_unit_vectors': 100, 'frame.refused': 5, 'binding.scattering_angles_with_gravity': 20,
-              'binding.scattering_angle_in_yz_plane': 10, 'continuity': 50, 'limit': 10}
+              'binding.scattering_angle_in_yz_plane': 10, 'continuity': 50, 'limit': 10,
+              'screen.scattering_angles_with_gravity': 4 * len(HEAVY_CASES),
+              'screen.scattering_angle_in_yz_plane': len(HEAVY_CASES),
+              'graph.refusal of the kernel passed on': n, 'reuse.scattering_angles_with_gravity': n,
+              'reuse.scattering_angle_in_yz_plane': n}
     for fn in fns:
-        events['judged.|g| below 1e-12 in its unit: ' + fn] = 16
-        events['judged.|g| below 1e-12 in its unit, horizontal beam: ' + fn] = 16
+        events['judged.|g| below 1e-12 in its unit: ' + fn] = n
+        events['judged.|g| below 1e-12 in its unit, horizontal beam: ' + fn] = n
+    for fn in fns[:2]:
+        events['variances.refused: ' + fn] = n
+        events['graph.' + fn] = n
     for rel in LAYOUT_RELATIONS:
         for kind in LAYOUT_KINDS:
-            events[f'judged.layout: {kind} wavelength, {rel[0]}, scattering_angles_with_gravity'] = 16
-            events[f'judged.layout: {kind} wavelength, {rel[0]}, scattering_angle_in_yz_plane'] = 8
+            events[f'judged.layout: {kind} wavelength, {rel[0]}, scattering_angles_with_gravity'] = n
+            events[f'judged.layout: {kind} wavelength, {rel[0]}, scattering_angle_in_yz_plane'] = n // 2
+    for cls in graph_classes():
+        fn = next(f for f in GRAPH_FUNCS if f', {f}, ' in cls)
+        if fn == GRAPH_FUNCS[0] or cls.endswith('horizontal beam'):
+            events[f'judged.graph: {cls}, {fn}'] = n
+    for hc in (HEAVY_CASES if tier == 'quick' else HEAVY_CASES + HEAVY_CASES_THOROUGH):
+        for p in LAYOUT_PATHS:
+            events[f'judged.heavy: {hc[0]}, {p}, scattering_angles_with_gravity'] = 1
+        events[f'judged.heavy: {hc[0]}, horizontal beam, scattering_angle_in_yz_plane'] = 1
     return {
         'events': events,
         'forced': [f'tilt:{t:g}' for t in TILTS] + ['|g|:' + g for g in gclasses]
@@ -878,8 +1526,19 @@ def requirements(tier):
         + layout_classes()
         + ['layout: binned wavelength, contiguous event buffer',
            'layout: binned wavelength, bins out of order in the event buffer, with foreign events',
-           'layout: one incident beam per element of a dim of the other operands'],
-        'counters': {'out of judged domain: |g|^2 underflows float64': 16},
+           'layout: one incident beam per element of a dim of the other operands']
+        + ['call: ' + c for c in CONVENTIONS]
+        + ['graph: ' + c for c in graph_classes()] + ['graph: ' + m for m in GRAPH_MASKS]
+        + ['dim names: dims named ' + '/'.join(names) for names in DIM_NAME_SETS]
+        + [f'variances: {kind} wavelength with variances, {path}' for kind in LAYOUT_KINDS for path in LAYOUT_PATHS]
+        + [f'reuse: {mode}, {kind} wavelength, {path}' for mode in REUSE_MODES for kind in LAYOUT_KINDS
+           for path in LAYOUT_PATHS]
+        + [f'heavy: {hc[0]}, {p}' for hc in (HEAVY_CASES if tier == 'quick' else HEAVY_CASES + HEAVY_CASES_THOROUGH)
+           for p in LAYOUT_PATHS],
+        'counters': {'out of judged domain: |g|^2 underflows float64': n,
+                     'refused: wavelength with variances (VariancesError)': n,
+                     'refused: wavelength with variances (DTypeError)': n,
+                     'elements judged against the float64 construction (results beyond 2^19 elements)': 1 << 24},
     }
 
 
@@ -894,6 +1553,14 @@ def run(shard, ctx):
     tr.watch(K.scattering_angles_with_gravity, 'scattering_angles_with_gravity', on_return=mon.angles)
     tr.watch(K.scattering_angle_in_yz_plane, 'scattering_angle_in_yz_plane', on_return=mon.yz)
     tr.watch(K.beam_aligned_unit_vectors, 'beam_aligned_unit_vectors', on_return=mon.frame)
+    if shard.get('kind') == 'heavy':
+        with tr:
+            for hc, path in heavy_pairs(shard['tier'], shard['seed'], shard['slot']):
+                before = ctx.n_violations
+                ctx.case(heavy_case(rng, ctx, K, mon, hc, path))
+                if ctx.n_violations > before and len(ctx.samples) < 6:
+                    ctx.sample({'family': 'heavy', 'case': hc[0], 'path': path})
+        return
     with tr:
         for i in range(shard['cases']):
             before = ctx.n_violations
@@ -911,6 +1578,28 @@ def run(shard, ctx):
                         v += 1
                         if ctx.n_violations > before and len(ctx.samples) < 8:
                             ctx.sample({'family': 'layout', 'relation': rel[0], 'wavelength': kind, 'path': path})
+            # kernels as graph nodes, caller dims named like internal names, variances, second use
+            for form in GRAPH_FORMS:
+                for fname in GRAPH_FUNCS:
+                    for kind in LAYOUT_KINDS:
+                        for path in LAYOUT_PATHS:
+                            before = ctx.n_violations
+                            ctx.case(graph_case(rng, ctx, K, mon, form, fname, kind, path, v))
+                            v += 1
+                            if ctx.n_violations > before and len(ctx.samples) < 10:
+                                ctx.sample({'family': 'graph', 'form': form, 'function': fname, 'data': kind,
+                                            'path': path})
+            overlapping = next(r for r in LAYOUT_RELATIONS if r[0] == 'overlapping')
+            for names in DIM_NAME_SETS:
+                for kind in LAYOUT_KINDS:
+                    for path in LAYOUT_PATHS:
+                        ctx.case(layout_case(rng, ctx, K, mon, overlapping, kind, path, v, rename=names))
+                        v += 1
+            for q in range(8):
+                ctx.case(variances_case(rng, ctx, K, mon, q + 8 * (v % 2)))
+            for q in range(12):
+                ctx.case(reuse_case(rng, ctx, K, mon, q + 12 * (v % 2)))
+                v += 1
         for j in range(shard['sweeps'] * 4):
             ctx.case(frame_case(rng, ctx, K, mon, j))
         for _ in range(shard['sweeps']):  # noqa: B007
@@ -922,7 +1611,9 @@ FINDING_PREDICATES = {}
 
 TECHNIQUE = ('runtime monitors (sys.monitoring) on both gravity code paths and the reflectometry variant; '
              'long-double re-evaluation of the documented construction for every (event, pixel) pair of the result; '
-             'tilt-sweep continuity and limit monitors')
+             'tilt-sweep continuity and limit monitors; kernels driven directly (every calling convention) and as '
+             'transform_coords graph nodes; float64 screen of every element + long-double selection for results beyond '
+             '2^19 elements')
 LEVEL_TEXT = ('exploration: every observed return of scattering_angles_with_gravity / scattering_angle_in_yz_plane '
               'is compared with the documented construction (beam raised by delta along -g/|g|) at 1e-12 rad '
               '(1e-5 single precision) with the conditioning of atan2 accounted for; which private implementation '
@@ -932,6 +1623,11 @@ LEVEL_TEXT = ('exploration: every observed return of scattering_angles_with_grav
               'observed values. Every run contains every broadcast relation between the dims of wavelength (dense and '
               'binned, contiguous or not) and scattered_beam on both paths and every |g| band with a horizontal and a '
               'tilted beam; the result must span the union of the operand dims with the bins of the wavelength. '
+              'Every run also drives the kernels the way the user guide documents them, as nodes of a transform_coords '
+              'graph (must be called, must not fail except by the kernel\'s own refusal, output coordinates are what the '
+              'kernel returned, masks kept), with every calling convention, with results beyond 2^22 elements in the '
+              'ordinary time-of-flight layouts on both paths (every element screened in float64, a selection in long '
+              'double), and a second time with the same / copied objects (bit-identical result, arguments unchanged). '
               'Sampled inputs, not a proof.')
 LEVEL_NOTE = ('trusted: numpy long double, scipp containers, h and m_n from scipp.constants, the docstring '
               'construction as specification')
